@@ -481,6 +481,36 @@ func LockBalanceLints(fn *ssa.Function) []LintFinding {
 			}
 		}
 	}
+	// L8b: a second exclusive Lock of the same mutex is reachable from a Lock without an
+	// Unlock in between (sync.Mutex is not reentrant: the goroutine blocks forever). Only for
+	// mutexes reached from a parameter, receiver or captured variable - the same object on
+	// every iteration - and only for plain (non-deferred) operations.
+	for k, in := range instrs {
+		op := ops[k]
+		if !op.Acquire || op.Read || !stableRoot(op.Recv) {
+			continue
+		}
+		if _, isCall := in.(*ssa.Call); !isCall {
+			continue
+		}
+		var unlocks []ssa.Instruction
+		for j, other := range instrs {
+			if !ops[j].Acquire && ops[j].Path == op.Path {
+				if _, isCall := other.(*ssa.Call); isCall {
+					unlocks = append(unlocks, other)
+				}
+			}
+		}
+		reached := Reach(fn, in, NewBlocker(unlocks...))
+		for j, other := range instrs {
+			if ops[j].Acquire && !ops[j].Read && ops[j].Path == op.Path && reached[other] {
+				if _, isCall := other.(*ssa.Call); isCall {
+					out = append(out, LintFinding{other, "this Lock of " + op.Path + " can be reached while the same goroutine still holds it (locked at line " + itoa(fn.Prog.Fset.Position(in.Pos()).Line) + ", no Unlock on the way): sync.Mutex is not reentrant, the goroutine blocks forever"})
+					break
+				}
+			}
+		}
+	}
 	for k, in := range instrs {
 		op := ops[k]
 		if op.Acquire {
@@ -488,7 +518,13 @@ func LockBalanceLints(fn *ssa.Function) []LintFinding {
 		}
 		if !locked[op.Path] {
 			// an unlock helper (the caller holds the lock) is legitimate only if nothing in this
-			// function suggests it owns the critical section: a *deferred* unlock does
+			// function suggests it owns the critical section: a *deferred* unlock does, and so does
+			// a plain unlock in an exported function or method (its callers are outside the module's
+			// control, and no exported function of this module is documented as "call with the lock held")
+			if _, isCall := in.(*ssa.Call); isCall && fn.Parent() == nil && fn.Object() != nil && fn.Object().Exported() && stableRoot(op.Recv) {
+				out = append(out, LintFinding{in, "an exported function unlocks " + op.Path + " without ever locking it: unlock of an unlocked mutex is a fatal error"})
+				continue
+			}
 			if _, isDefer := in.(*ssa.Defer); isDefer {
 				out = append(out, LintFinding{in, "a deferred unlock of " + op.Path + " is installed but the function never locks it: unlock of an unlocked mutex is a fatal error"})
 			}
@@ -496,4 +532,36 @@ func LockBalanceLints(fn *ssa.Function) []LintFinding {
 		}
 	}
 	return out
+}
+
+// stableRoot: the lock's receiver is reached from a parameter, receiver, free variable or
+// global through field selections only (the same object every time the code runs).
+func stableRoot(v ssa.Value) bool {
+	for depth := 0; depth < 10 && v != nil; depth++ {
+		switch x := v.(type) {
+		case *ssa.Parameter, *ssa.FreeVar, *ssa.Global:
+			return true
+		case *ssa.FieldAddr:
+			v = x.X
+		case *ssa.Field:
+			v = x.X
+		case *ssa.UnOp:
+			if x.Op != token.MUL {
+				return false
+			}
+			if al, ok := x.X.(*ssa.Alloc); ok {
+				// the spilled receiver / parameter: `t0 = new *T (c); *t0 = c`
+				if tv := throughCell(x); tv != ssa.Value(x) {
+					v = tv
+					continue
+				}
+				_ = al
+				return false
+			}
+			v = x.X
+		default:
+			return false
+		}
+	}
+	return false
 }
